@@ -752,6 +752,138 @@ static void gather_scatter_convert(Rng& rng)
         }
 }
 
+// ---------------------------------------------------------------- gather / scatter with unsigned 32-bit indices >= 2^31
+// "src[index]" with an unsigned index type means the element 2^31 .. 2^32-1 places ABOVE the base pointer; the x86 gather
+// and scatter instructions sign-extend 32-bit indices and would address the element 2^32 places lower instead.  Such a table
+// has 8..32 GiB, so the monitor reserves 80 GiB of PROT_NONE address space (MAP_NORESERVE: no memory is committed), puts the
+// base pointer in its middle and makes only the five pages that the valid indices address readable/writable: any access
+// through a sign-extended (or otherwise mangled) index lands in the PROT_NONE reservation and faults under the SIGSEGV
+// monitor.  T: lane type, U: memory element type (T != U: the converting kernels), index type uint32_t.
+struct BigArena
+{
+    unsigned char* res = nullptr;
+    static constexpr size_t GiB = (size_t)1 << 30;
+    bool ok()
+    {
+        if (!res)
+        {
+            res = (unsigned char*)mmap(nullptr, 80 * GiB, PROT_NONE, MAP_PRIVATE | MAP_ANONYMOUS | MAP_NORESERVE, -1, 0);
+            if (res == MAP_FAILED)
+                res = (unsigned char*)(uintptr_t)1;
+        }
+        return res != (unsigned char*)(uintptr_t)1;
+    }
+    unsigned char* base() const { return res + 40 * GiB; }
+};
+static BigArena BIG;
+
+template <class T, class U>
+static void gather_scatter_high_index(Rng& rng)
+{
+    using B = xs::batch<T, ARCH>;
+    using IT = uint32_t;
+    using BI = xs::batch<IT, ARCH>;
+    static_assert(sizeof(T) == 4, "32-bit lanes: the index batch has the lane count of the value batch");
+    constexpr size_t N = B::size;
+    const std::string tn = std::is_same<T, U>::value ? std::string(tname<T>()) : std::string(tname<U>()) + "_mem_" + tname<T>() + "_lanes";
+    static OpStat& sg = reg("C04", "gather_high_unsigned_index", tn.c_str());
+    static OpStat& sc = reg("C04", "scatter_high_unsigned_index", tn.c_str());
+    if (!sg.on && !sc.on)
+        return;
+    if (!BIG.ok())
+    {
+        note_na("C04", "gather_high_unsigned_index", tn.c_str(), "could not reserve 80 GiB of PROT_NONE address space in this environment");
+        return;
+    }
+    U* base = (U*)BIG.base();
+    const size_t pg = 4096, per = pg / sizeof(U);
+    // windows of one page each: first elements of the table, just below / at / above 2^31, at 3*2^30, and the last page below 2^32
+    const uint64_t win[5] = { 0, ((uint64_t)1 << 31) - per, (uint64_t)1 << 31, (uint64_t)3 << 30, ((uint64_t)1 << 32) - per };
+    for (uint64_t w : win)
+        if (mprotect((unsigned char*)(base + w), pg, PROT_READ | PROT_WRITE) != 0)
+        {
+            note_na("C04", "gather_high_unsigned_index", tn.c_str(), "mprotect inside the reservation failed");
+            return;
+        }
+    alignas(64) IT idx[N];
+    alignas(64) T src[N], o[N];
+    for (int pattern = 0; pattern < 12; ++pattern)
+    {
+        // element values: pairwise distinct small integers, representable in both types
+        for (uint64_t w : win)
+            for (size_t k = 0; k < per; ++k)
+                base[w + k] = (U)(double)(1 + ((w >> 20) % 7919 + 3 * k) % 30000);
+        bool distinct = true;
+        for (size_t i = 0; i < N; ++i)
+        {
+            // patterns 0..4: every lane in one window; 5..: lanes spread over the windows (high and low indices in one batch)
+            int wsel = pattern < 5 ? pattern : (int)(rng.next() % 5);
+            if (pattern == 5)
+                wsel = 2 + (int)(i % 3);
+            if (pattern == 6)
+                wsel = (i == 0) ? 4 : 0;
+            if (pattern == 7)
+                wsel = (i == N - 1) ? 2 : 1;
+            size_t k = pattern == 8 ? per - 1 - i % per : (size_t)(rng.next() % per);
+            if (wsel == 4 && (pattern & 1))
+                k = per - 1 - (i % per); // includes index 0xffffffff
+            idx[i] = (IT)(win[wsel] + k);
+            for (size_t j = 0; j < i; ++j)
+                if (idx[j] == idx[i])
+                    distinct = false;
+            src[i] = (T)(double)(40000 + 11 * i);
+        }
+        std::string wit = std::string("\"table\":\"80 GiB PROT_NONE reservation, base in the middle, 5 accessible pages\",\"index\":") + hexarr(idx, N);
+        if (sg.on)
+        {
+            mark_case("gather_high_unsigned_index", tn.c_str(), idx, sizeof idx);
+            sg.evals += N;
+            sg.cell((unsigned)pattern);
+            bool ok = guarded(sg, wit, [&]
+                              { B::gather(base, BI::load_aligned(idx)).store_aligned(o); });
+            if (ok)
+                for (size_t i = 0; i < N; ++i)
+                    if (!(o[i] == (T)base[idx[i]]))
+                    {
+                        viol(sg, "lane_mismatch", "{" + wit + ",\"lane\":" + std::to_string(i) + ",\"got\":\"" + hexv(o[i]) + "\",\"expected\":\"" + hexv((T)base[idx[i]]) + "\"}");
+                        break;
+                    }
+            if (sg.want_sample())
+                sg.samples.push_back("{" + wit + "}");
+        }
+        if (sc.on && distinct)
+        {
+            U canary;
+            memset(&canary, 0xa5, sizeof canary);
+            for (uint64_t w : win)
+                memset((void*)(base + w), 0xa5, pg);
+            mark_case("scatter_high_unsigned_index", tn.c_str(), idx, sizeof idx);
+            sc.evals += N;
+            sc.cell((unsigned)pattern);
+            B v = B::load_aligned(src);
+            bool ok = guarded(sc, wit, [&]
+                              { v.scatter(base, BI::load_aligned(idx)); });
+            if (ok)
+                for (uint64_t w : win)
+                    for (size_t k = 0; k < per; ++k)
+                    {
+                        bool hit = false;
+                        for (size_t i = 0; i < N; ++i)
+                            if ((uint64_t)idx[i] == w + k)
+                            {
+                                hit = true;
+                                if (!(base[w + k] == (U)src[i]))
+                                    viol(sc, "element_mismatch", "{" + wit + ",\"element\":" + std::to_string(w + k) + "}");
+                            }
+                        if (!hit && !same_bits(base[w + k], canary))
+                            viol(sc, "unindexed_element_modified", "{" + wit + ",\"element\":" + std::to_string(w + k) + "}");
+                    }
+        }
+    }
+    for (uint64_t w : win)
+        mprotect((unsigned char*)(base + w), pg, PROT_NONE);
+}
+
 // ---------------------------------------------------------------- broadcast, element-list constructor, get(i)
 template <class T, size_t... Is>
 static void ctor_list(const T* a, T* o, std::index_sequence<Is...>)
@@ -838,6 +970,12 @@ void vh::unit_main()
             gather_scatter<float, uint32_t>(rng);
             gather_scatter<double, uint64_t>(rng);
             gather_scatter<uint64_t, uint64_t>(rng);
+            gather_scatter_high_index<int32_t, int32_t>(rng);
+            gather_scatter_high_index<uint32_t, uint32_t>(rng);
+            gather_scatter_high_index<float, float>(rng);
+            gather_scatter_high_index<float, double>(rng);
+            gather_scatter_high_index<int32_t, double>(rng);
+            gather_scatter_high_index<float, int16_t>(rng);
             gather_scatter_convert<float, double>(rng);
             gather_scatter_convert<int32_t, double>(rng);
             gather_scatter_convert<double, float>(rng);
